@@ -18,6 +18,9 @@ def txn_stages(ctx):
 def txniso_stages(ctx):
     # 2 transactions x <= 3 calls, every interleaving of Begin / call / Abort / Commit steps
     graph_stage(ctx, "txniso-2x3", "MC_TxnIso.tla", "TxnIso.quick.cfg", "txniso", ["txniso:mem"], workers=4)
+    # three transactions, one call each: an ended transaction that is ended again (Commit after Abort) while a second one holds the
+    # store must not let a third one in
+    graph_stage(ctx, "txniso-3x1", "MC_TxnIso.tla", "TxnIso.q3.cfg", "txniso", ["txniso:mem"], workers=4)
     if ctx.tier != "quick":
         # 3 transactions x <= 2 calls exhaustively, x <= 3 calls on a seeded 10 % of the states
         graph_stage(ctx, "txniso-3x2", "MC_TxnIso.tla", "TxnIso.thorough.cfg", "txniso", ["txniso:mem"], workers=4)
